@@ -122,8 +122,9 @@ def must_init(P, fn, R):
     return at_ret
 
 
-def entity_field_reads(P, fn, src_call):
-    """names 'Struct.field' selected on the way to every load / memcpy-source whose pointer derives from the result of src_call"""
+def entity_field_reads(P, fn, src_call, sites=None):
+    """names 'Struct.field' selected on the way to every load / memcpy-source whose pointer derives from the result of src_call;
+    when `sites` is a dict it receives field name -> [instructions that read it]"""
     reads = set()
     whole = set()
     for i in fn.all_insts():
@@ -144,6 +145,9 @@ def entity_field_reads(P, fn, src_call):
             if not derived:
                 continue
             chain = rules.field_chain(P, fn, rules.strip_casts(fn, p))
+            if chain and sites is not None:
+                for nm in chain:
+                    sites.setdefault(nm, []).append(i)
             if chain:
                 reads.add(tuple(chain))
                 if is_copy:
